@@ -14,6 +14,7 @@ for sid in sorted(os.listdir(os.path.join(ROOT, "seeded"))):
             det.append("%s: %s" % (c, ("**caught**" + (" (no failing input)" if v.get("no_failing_input") else "")) if v.get("violation") else "missed"))
         else:
             det.append("%s: %s" % (c, v))
+    if m.get("status_on_head"): det.append("(" + m["status_on_head"][:90] + "…)")
     rows.append("| %s | %s | %s | %s | %s |" % (sid, ",".join(m.get("breaks") or [m.get("property", "")]), (m.get("title") or m.get("origin", ""))[:110].replace("|", "/"),
                                              (m.get("needs_to_manifest") or m.get("needs", ""))[:140].replace("|", "/"), "; ".join(det) or "not run yet"))
 out = ["# Seeded changes and which checks catch them", "",
